@@ -314,3 +314,6 @@ def run(rep, prog, thorough):
     check_framing(rep, fm, cli)
     check_walks(rep, fm)
     check_decoder_prints(rep, prog)
+    # what counts as junk must not depend on the display mode
+    from .c08 import check_decode_independent_of_display
+    check_decode_independent_of_display(rep, prog, "C09.R1.per-file-barrier")
